@@ -183,10 +183,10 @@ def CANDIDATES(func: str):
     import itertools
 
     if func == "sequence":
-        for sel in itertools.product(range(3), range(13), range(13)):
+        for sel in itertools.product(range(3), range(14), range(14)):
             yield [list(sel) + [0] * 5]
     else:
-        for sel in itertools.product(range(4), range(13), range(len(KEYS) + 1), [len(KEYS)]):
+        for sel in itertools.product(range(4), range(14), range(len(KEYS) + 1), [len(KEYS)]):
             yield [list(sel) + [0] * 4]
 
 
